@@ -92,7 +92,7 @@ zix_ring_capacity(const ZixRing* ZIX_NONNULL ring);
 
    This function returns at most one less than the ring's buffer size.
 */
-ZIX_PURE_API uint32_t
+ZIX_API ZIX_NODISCARD uint32_t
 zix_ring_read_space(const ZixRing* ZIX_NONNULL ring);
 
 /**
@@ -159,7 +159,7 @@ typedef struct {
 
    This function returns at most one less than the ring's buffer size.
 */
-ZIX_PURE_API uint32_t
+ZIX_API ZIX_NODISCARD uint32_t
 zix_ring_write_space(const ZixRing* ZIX_NONNULL ring);
 
 /**
